@@ -4,6 +4,7 @@ import (
 	"bytes"
 	"encoding/hex"
 	"fmt"
+	"sort"
 	"strings"
 	"testing"
 
@@ -410,6 +411,36 @@ func replayObject(m *mon.M, kind string) {
 	if v, ok := m.ReplayField("round").(float64); ok {
 		round = int(v)
 	}
+	if entry, ok := m.ReplayField("entry").(string); ok {
+		// a panic recorded by mon.Guard: the input is the serialized object, the key is not recorded -> try every fixed key
+		in, _ := m.ReplayField("input_hex").(string)
+		raw, err := hex.DecodeString(in)
+		if err != nil || len(raw) == 0 {
+			m.Violationf("c16:replay-not-possible", nil, "no input recorded for %s", entry)
+			return
+		}
+		ks := keysFor(m, 0)
+		var names []string
+		for _, n := range []string{"a", "b", "e3"} {
+			names = append(names, "rsa-"+n)
+		}
+		for n := range ks.ec {
+			names = append(names, n)
+		}
+		for n := range ks.oct {
+			names = append(names, n)
+		}
+		sort.Strings(names)
+		for _, n := range names {
+			m.Case()
+			if kind == "jws" {
+				verifyJWS(m, string(raw), publicOf(ks.byName(n)))
+			} else {
+				decryptJWE(m, string(raw), ks.byName(n))
+			}
+		}
+		return
+	}
 	if s == "" || kn == "" || strings.Contains(s, "...(") {
 		m.Violationf("c16:replay-not-possible", nil, "replay file carries no complete serialization / key name")
 		return
@@ -430,10 +461,23 @@ func replayObject(m *mon.M, kind string) {
 	} else {
 		out, aad, stage, err = decryptJWE(m, s, key)
 	}
-	rep := map[string]interface{}{"serialized": clip(s), "key": kn, "round": round}
+	// keep what is needed to replay again, and report under the recorded signature
+	rep := map[string]interface{}{}
+	for _, k := range []string{"part", "op", "round", "key", "keybit", "serialized", "expect", "expect_payload", "expect_aad", "sig", "field", "bit", "dims"} {
+		if v := m.ReplayField(k); v != nil {
+			rep[k] = v
+		}
+	}
+	sig, _ := m.ReplayField("sig").(string)
+	sigOr := func(fallback string) string {
+		if sig != "" {
+			return sig
+		}
+		return fallback
+	}
 	if exp, _ := m.ReplayField("expect").(string); exp == "reject" {
 		if stage == "" {
-			m.Violationf("c16:replay:accepted", rep, "the recorded object is still accepted (payload %s)", hexOf(out))
+			m.Violationf(sigOr("c16:replay:accepted"), rep, "replayed: the recorded object is still accepted (payload %s)", hexOf(out))
 		}
 		return
 	}
@@ -441,10 +485,10 @@ func replayObject(m *mon.M, kind string) {
 	wantAAD, _ := m.ReplayField("expect_aad").(string)
 	switch {
 	case stage != "":
-		m.Violationf("c16:replay:"+stage, rep, "%v", err)
+		m.Violationf(sigOr("c16:replay:"+stage), rep, "replayed: %s: %v", stage, err)
 	case !strings.Contains(wantPl, "...") && hex.EncodeToString(out) != wantPl:
-		m.Violationf("c16:replay:payload-differs", rep, "got %s want %s", hexOf(out), wantPl)
+		m.Violationf(sigOr("c16:replay:payload-differs"), rep, "replayed: got %s want %s", hexOf(out), wantPl)
 	case kind == "jwe" && !strings.Contains(wantAAD, "...") && hex.EncodeToString(aad) != wantAAD:
-		m.Violationf("c16:replay:aad-differs", rep, "got %s want %s", hexOf(aad), wantAAD)
+		m.Violationf(sigOr("c16:replay:aad-differs"), rep, "replayed: aad got %s want %s", hexOf(aad), wantAAD)
 	}
 }
